@@ -233,7 +233,7 @@ func script(p Plan, out *vk.Outcome) error {
 		recs = append(recs, r)
 		what := fmt.Sprintf("Next #%d (called at +%v, timeout %v, returned at +%v)", len(recs), r.tc.Sub(recs[0].tc), timeout, r.T.Sub(recs[0].tc))
 		if err != nil {
-			if p.EndErr && errors.Is(err, E) { // the source's own error (it may itself wrap a context error)
+			if p.EndErr && err == E { // the source's own error (it may itself wrap a context error)
 				final = err
 				return nil
 			}
@@ -359,7 +359,7 @@ func script(p Plan, out *vk.Outcome) error {
 	// clause 6 and read-to-the-end
 	if final != nil {
 		if p.EndErr {
-			if !errors.Is(final, E) {
+			if final != E {
 				return vk.Violf("wrong-error", "source failed with E after %d items, consumer got %v", n, final)
 			}
 		} else if final != stream.End {
